@@ -95,9 +95,18 @@ where
             // before we can do anything else.
             if buffered_req.is_some() && server.is_some() {
                 let si = &mut server.as_mut().as_pin_mut().unwrap().0;
-                // Unwrapping is safe as the underlying sink is guaranteed not to error
-                ready!(si.poll_ready_unpin(cx)).unwrap();
-                si.start_send_unpin(buffered_req.take().unwrap()).unwrap();
+                // The replier is a remote peer, so its sink can fail at any time
+                match ready!(si.poll_ready_unpin(cx)) {
+                    Ok(()) => {
+                        if let Err(e) = si.start_send_unpin(buffered_req.take().unwrap()) {
+                            error!("Failed to send request to replier: {e:?}");
+                        }
+                    }
+                    Err(e) => {
+                        error!("Replier sink failed, unbinding replier: {e:?}");
+                        *server = None;
+                    }
+                }
             }
 
             // If we've got an error buffered already, we need to write it to the client
@@ -200,7 +209,9 @@ where
                     // Server has finished
                     Poll::Ready(None) => {
                         let si = &mut server.as_mut().as_pin_mut().unwrap().0;
-                        ready!(si.poll_flush_unpin(cx)).unwrap();
+                        if let Err(e) = ready!(si.poll_flush_unpin(cx)) {
+                            error!("Failed to flush departing replier: {e:?}");
+                        }
                         ready!(sink.as_mut().poll_flush(cx)).unwrap();
                         *server = None;
                     }
@@ -245,7 +256,10 @@ where
 
                     if server.is_some() {
                         let si = &mut server.as_mut().as_pin_mut().unwrap().0;
-                        ready!(si.poll_flush_unpin(cx)).unwrap();
+                        if let Err(e) = ready!(si.poll_flush_unpin(cx)) {
+                            error!("Replier sink failed, unbinding replier: {e:?}");
+                            *server = None;
+                        }
                     }
                 }
                 // No messages are available at this time
@@ -262,7 +276,10 @@ where
 
                 if server.is_some() {
                     let si = &mut server.as_mut().as_pin_mut().unwrap().0;
-                    ready!(si.poll_flush_unpin(cx)).unwrap();
+                    if let Err(e) = ready!(si.poll_flush_unpin(cx)) {
+                        error!("Replier sink failed, unbinding replier: {e:?}");
+                        *server = None;
+                    }
                 }
 
                 return Poll::Pending;
